@@ -30,6 +30,7 @@ import (
 	"github.com/lindb/lindb/models"
 	"github.com/lindb/lindb/pkg/imap"
 	"github.com/lindb/lindb/pkg/strutil"
+	"github.com/lindb/lindb/pkg/verifhook"
 	"github.com/lindb/lindb/series/field"
 	"github.com/lindb/lindb/series/metric"
 	"github.com/lindb/lindb/series/tag"
@@ -88,6 +89,7 @@ func (s *metricSchemaStore) genFieldID(id metric.ID, f field.Meta, limits *model
 	if err != nil {
 		return 0, err
 	}
+	verifhook.Yield("index.schemastore.gen.beforeLock")
 	s.lock.Lock()
 	defer s.lock.Unlock()
 
@@ -121,6 +123,7 @@ func (s *metricSchemaStore) genTagKeyID(id metric.ID, tagKey []byte, limits *mod
 	if err != nil {
 		return 0, err
 	}
+	verifhook.Yield("index.schemastore.gen.beforeLock")
 	s.lock.Lock()
 	defer s.lock.Unlock()
 
